@@ -149,7 +149,7 @@ pub fn dechar_program(p: &Program) -> Program {
 }
 
 /// all strict and non-strict subterms of a source type
-fn subterms<'a>(s: &'a Src, out: &mut Vec<&'a Src>) {
+pub(crate) fn subterms<'a>(s: &'a Src, out: &mut Vec<&'a Src>) {
     out.push(s);
     match s {
         Src::App(_, a) | Src::Tuple(a) => a.iter().for_each(|x| subterms(x, out)),
@@ -162,7 +162,7 @@ fn subterms<'a>(s: &'a Src, out: &mut Vec<&'a Src>) {
     }
 }
 
-fn def_fields(d: &Def) -> Vec<&FieldDef> {
+pub(crate) fn def_fields(d: &Def) -> Vec<&FieldDef> {
     match &d.body {
         Body::Struct(fs) => fs.iter().collect(),
         Body::Enum(vs) => vs.iter().flat_map(|v| v.2.iter()).collect(),
@@ -170,7 +170,7 @@ fn def_fields(d: &Def) -> Vec<&FieldDef> {
 }
 
 /// occurrences of `Param(j)` outside every `App(me, ..)` subterm
-fn param_outside_self(s: &Src, me: usize, j: usize) -> bool {
+pub(crate) fn param_outside_self(s: &Src, me: usize, j: usize) -> bool {
     match s {
         Src::Param(i) => *i == j,
         Src::App(d, _) if *d == me => false,
